@@ -11,7 +11,7 @@ From Soy Require Import Proofs.RawTextProofs.
 From Soy Require Import Model.Ast Model.Token Model.Lexer Model.Parser Generated.Tables
   Proofs.LexerProofs Proofs.LexBodyText Proofs.LexBodyTop Proofs.ParseBodyText Proofs.BodyTextMain.
 From Soy Require Import Spec.TextBody Proofs.LexTokens Proofs.LexPrintTop Proofs.LexBodyLit Proofs.LexBodyMain Proofs.BodyCmdMain.
-From Soy Require Import Spec.TextMix Proofs.BodyMixMain.
+From Soy Require Import Spec.TextMix Proofs.BodyMixMain Proofs.LexBodySeg Proofs.LexBodyMix Proofs.ExprParserRules Proofs.ParseBodyText Proofs.BodyStretchAny.
 From Soy Require Import Spec.TextTemplate Proofs.ParserProofs Proofs.BodyTemplateMain.
 Open Scope N_scope.
 
@@ -262,6 +262,52 @@ Proof.
   exact (body_mix_impl_spec is_letter_tbl is_digit_tbl Hl Hd El Ed inlen lexq unq).
 Qed.
 Print Assumptions C15_body_text_spec.
+
+(* ONE stretch between ANY two tags (print, if, msg, call ... whatever): the treatment of the text does not
+   depend on what its neighbours are.  Scanner: from lexText at the first byte of a stretch T of plain bytes that
+   is followed by tl (the "{" of any tag, or the end of the input), in ANY scanner state l (only the byte in front
+   of T matters: pwof, "the previous byte is white space or T begins the input" -- false behind the "}" of a tag,
+   pwof_after_brace), the scanner model sends the items its (text and comment items of T) and stops in
+   lexLeftDelim in front of tl (or sends EOF and is done).  Parser: itemList of ANY enclosing command (any
+   until-set without text / "{" / special-character / literal items -- every until-set of Model/Parser.v),
+   under any budgets, in ANY parser state that delivers its followed by an item nx that is neither text nor
+   comment ("{" or EOF), appends raw-text nodes whose texts, concatenated, are exactly the Spec's body_text of T
+   and stands in front of nx (behind the comments that follow the last text, which the next tag skips).
+   What this does NOT say: that the neighbouring tags parse -- that is C05 / C17's subject; with it, every stretch
+   of a template is covered whatever its neighbours are (C15_body_text_spec / C15_template_body_text_spec are the
+   whole-file statements for the tags whose parse is part of C15: special characters and literal blocks). *)
+Theorem C15_stretch_any_neighbours : forall inp l T tl out,
+  span inp l [] (T ++ tl) -> plain T -> tag_or_end tl ->
+  body_text (pwof 0 l) T = Some out -> (tl <> [] -> line_open MText (pwof 0 l) T = false) ->
+  exists k l' its st',
+    steps is_letter_tbl is_digit_tbl inp 0 k LText l = Ok (st', l') /\ l_dd l' = l_dd l /\
+    ((tl = [] /\ st' = LDone /\ exists e, t_typ e = itemEOF /\ l_out l' = e :: rev its ++ l_out l) \/
+     (tl <> [] /\ st' = LLeftDelim /\ l_out l' = rev its ++ l_out l /\ span inp l' [] tl)) /\
+    forall inlen lexq unq pexpr efuel pe w lf until,
+      one_of pit_Text until = false -> one_of pit_LeftDelim until = false ->
+      (forall t o, assoc t parser_special_chars = Some o -> one_of t until = false) -> one_of pit_Literal until = false ->
+      forall nx rest acc pos s, t_typ nx <> pit_Text -> t_typ nx <> pit_Comment ->
+      stream (c_p s) = its ++ nx :: rest -> inv (c_p s) -> (length its + 2 <= lf)%nat ->
+      exists j pre' nodes pos' s', Forall is_comment pre' /\ Forall is_raw nodes /\ concat (map raw_text_of nodes) = out /\
+        stream (c_p s') = pre' ++ nx :: rest /\ inv (c_p s') /\
+        forall f, item_list_loop inlen lexq unq pexpr efuel pe w lf (j + f) until pos acc s
+                = item_list_loop inlen lexq unq pexpr efuel pe w lf f until pos' (acc ++ nodes) s'.
+Proof.
+  destruct tables_ascii as [Hl Hd]. destruct tables_eof as [El Ed].
+  exact (stretch_any_neighbours is_letter_tbl is_digit_tbl Hl Hd El Ed).
+Qed.
+Print Assumptions C15_stretch_any_neighbours.
+(* non-vacuity: a stretch with a comment, at the start of the input, in front of {if $x}; its text is " ab " (the comment takes the line break with it) *)
+Example C15_ex_stretch_before_if :
+  let T := b " a //c" ++ [10] ++ b " b " in let tl := b "{if $x}y{/if}" in
+  span (T ++ tl) lex_init [] (T ++ tl) /\ plain T /\ tag_or_end tl /\
+  body_text (pwof 0 lex_init) T = Some (b " ab ") /\ line_open MText (pwof 0 lex_init) T = false.
+Proof.
+  cbv zeta. split; [unfold span, lex_init; cbn [l_start l_pos length]; repeat split; try lia|].
+  split; [apply Forall_forall; intros c Hc; assert (H : forallb (fun c => negb (c =? 0) && negb (c =? 123) && negb (c =? 125)) (b " a //c" ++ [10] ++ b " b ") = true) by (vm_compute; reflexivity);
+          rewrite forallb_forall in H; specialize (H c Hc); lia|].
+  split; [right; eexists; reflexivity|]. split; vm_compute; reflexivity.
+Qed.
 
 (* non-vacuity: comments before and after tags, "//" after "}" (text) and at the start of the input (comment), an
    empty comment, a literal block with comment openers and braces, an open "//" comment in the last stretch *)
